@@ -452,6 +452,16 @@ def stepChBothWith (privFirst : Bool) (s : State) (pubOld pubNew privOld privNew
 def stepChBoth (s : State) (pubOld pubNew privOld privNew : Nat) : State × Res :=
   stepChBothWith false s pubOld pubNew privOld privNew
 
+/-- `ChangePassphrases` with `repo-patches/fix-C05-changepassphrases-public-half-rollback.diff`: when the private
+half fails after the public half succeeded, the handler switches the in-memory public master key back
+(`ChangePassphrase(publicNew → publicOld)` inside the transaction that is rolled back).  Used by the driver when the
+harness's probe reports the fix (`reset pf=1`); `step` follows the unfixed code. -/
+def stepChBothFixed (s : State) (pubOld pubNew privOld privNew : Nat) : State × Res :=
+  let r := stepChBoth s pubOld pubNew privOld privNew
+  match r.2 with
+  | .err _ => if pubOld = memPub s then ({ r.1 with mem := { r.1.mem with pubOv := some pubOld } }, r.2) else r
+  | _ => r
+
 def step (s : State) : Op → State × Res
   | .newAddr sc a internal cf => stepNewAddr s sc a internal cf
   | .curAddr sc a => stepCurAddr s sc a
